@@ -33,8 +33,10 @@
    Two knobs that are NOT in the code (both 0 / false = the code as it is):
      strict (bits)  1: canBeMadeAtomic refuses the end of the expression once it has stepped over a \B
                        (known finding c05-nonboundary-end; the end of an atomic group is refused by the
-                       code itself since ef188d6 / 1a8f8bf); 2: it does not walk up through a balancing
-                       capture.
+                       code itself since ef188d6 / 1a8f8bf).  The other bits mark what the proofs do not
+                       cover yet: 2: no walk up through, and no descent of processNode / FindLast... into,
+                       a balancing capture; 4: no walk up out of an atomic group the walk itself descended
+                       into (a successor of the loop); 8: FindLastExpressionInLoopForAutoAtomic finds nothing.
      lite           the mandatory reducers are replaced by the identity wherever a gated branch re-reduces
                        a node (the proofs are about the lite pass; [lite = full] is a per-tree check).
    Oracles: cat_in (Model/CharClass.v), is_word_char = syntax.IsWordChar, is_ecma_word_char =
@@ -53,8 +55,9 @@ Definition fo_gate (g bit : Z) : bool := negb (Z.land g bit =? 0).
 Definition fo_not_ecma_word_class : cls := ranges_cls not_ecma_word_ranges.
 
 (* RegexNode.Parent, as far as the code looks at it: the parent's type, whether it is a balancing
-   capture, and the siblings to the right of the node *)
-Record frame : Type := mkF { f_t : Z; f_bal : bool; f_rights : list rnode }.
+   capture, and the siblings to the right of the node.  [f_desc] is not in the code: the frame was pushed by
+   canBeMadeAtomic's own descent into a successor (895-905), i.e. the parent does not contain the loop *)
+Record frame : Type := mkF { f_t : Z; f_bal : bool; f_desc : bool; f_rights : list rnode }.
 
 Definition fo_is_nil {A} (l : list A) : bool := match l with [] => true | _ => false end.
 
@@ -145,7 +148,7 @@ Fixpoint fo_descend (sub : rnode) (ctx : list frame) : rnode * list frame :=
           if (t =? T_Concatenate) || (t =? T_Capture) || (t =? T_Atomic) ||
              ((t =? T_PosLook) && negb (useRTL o)) ||
              (((t =? T_Loop) || (t =? T_Lazyloop)) && (0 <? m))
-          then fo_descend k (mkF t ((t =? T_Capture) && negb (n =? -1)) ks :: ctx)
+          then fo_descend k (mkF t ((t =? T_Capture) && negb (n =? -1)) true ks :: ctx)
           else (sub, ctx)
       end
   end.
@@ -221,7 +224,7 @@ Fixpoint fo_cbma (fuel : nat) (strict : Z) (n sub : rnode) (ctx : list frame)
            match ks with
            | [] => Ok true
            | k :: ks' =>
-               do b <- fo_cbma f strict n k (mkF st false ks' :: ctx1) iter false seen ;
+               do b <- fo_cbma f strict n k (mkF st false true ks' :: ctx1) iter false seen ;
                if b then branches ks' else Ok false
            end) (n_kids s)
       else
@@ -237,13 +240,13 @@ Fixpoint fo_cbma (fuel : nat) (strict : Z) (n sub : rnode) (ctx : list frame)
              | [] => Ok (negb (Z.testbit strict 0 && seen1))              (* parent == nil: the root *)
              | fr :: c' =>
                  let pt := f_t fr in
-                 if pt =? T_Atomic then (if seen1 then Ok false else up c')
+                 if pt =? T_Atomic then (if seen1 || (Z.testbit strict 2 && f_desc fr) then Ok false else up c')
                  else if pt =? T_Alternate then up c'
                  else if pt =? T_Capture then (if Z.testbit strict 1 && f_bal fr then Ok false else up c')
                  else if pt =? T_Concatenate then
                    match f_rights fr with
                    | [] => up c'
-                   | nx :: rs => fo_cbma f strict n nx (mkF T_Concatenate false rs :: c') iter allow_lazy seen1
+                   | nx :: rs => fo_cbma f strict n nx (mkF T_Concatenate false (f_desc fr) rs :: c') iter allow_lazy seen1
                    end
                  else Ok false
              end) ctx1
@@ -252,13 +255,14 @@ Fixpoint fo_cbma (fuel : nat) (strict : Z) (n sub : rnode) (ctx : list frame)
 (* ---------------------------------------------------------------- FindLastExpressionInLoopForAutoAtomic (853-880) *)
 (* [k first last] decides about the last child of the body's concatenation; Some l = continue with it,
    rewritten to l *)
-Fixpoint fo_body_last (body : rnode) (k : rnode -> rnode -> res (option rnode)) : res (option rnode) :=
+Fixpoint fo_body_last (strict : Z) (body : rnode) (k : rnode -> rnode -> res (option rnode)) : res (option rnode) :=
   match body with
   | RN t o ch m n str st kids =>
-      if t =? T_Capture then
+      if (t =? T_Capture) && Z.testbit strict 1 && negb (n =? -1) then Ok None
+      else if t =? T_Capture then
         match kids with
         | [] => Crash 43
-        | c :: cs => do r <- fo_body_last c k ;
+        | c :: cs => do r <- fo_body_last strict c k ;
                      Ok (match r with Some c' => Some (RN t o ch m n str st (c' :: cs)) | None => None end)
         end
       else if t =? T_Concatenate then
@@ -270,10 +274,11 @@ Fixpoint fo_body_last (body : rnode) (k : rnode -> rnode -> res (option rnode)) 
         end
       else Ok None
   end.
-Definition fo_loop_last (lp : rnode) (k : rnode -> rnode -> res (option rnode)) : res (option rnode) :=
+Definition fo_loop_last (strict : Z) (lp : rnode) (k : rnode -> rnode -> res (option rnode)) : res (option rnode) :=
+  if Z.testbit strict 3 then Ok None else
   match n_kids lp with
   | [] => Crash 45
-  | b :: bs => do r <- fo_body_last b k ;
+  | b :: bs => do r <- fo_body_last strict b k ;
                Ok (match r with Some b' => Some (set_kids lp (b' :: bs)) | None => None end)
   end.
 
@@ -299,13 +304,14 @@ Fixpoint fo_pn (fuel : nat) (strict : Z) (node sub : rnode) (ctx : list frame) :
         do go' <- fo_map_res (fun k => fo_pn f strict k sub ctx) go ;
         Ok (set_kids nd (keep ++ go'))
       else Ok nd in
-    if (t =? T_Capture) || (t =? T_Concatenate) then                      (* 412-415 *)
+    if (t =? T_Capture) && Z.testbit strict 1 && negb (n_n node =? -1) then Ok node
+    else if (t =? T_Capture) || (t =? T_Concatenate) then                      (* 412-415 *)
       match rev (n_kids node) with
       | [] => Crash 42
       | lastk :: rpre => do l' <- fo_pn f strict lastk sub ctx ; Ok (set_kids node (rev (l' :: rpre)))
       end
     else if t =? T_Loop then                                              (* 421-427 *)
-      do r <- fo_loop_last node (fun first lastc =>
+      do r <- fo_loop_last strict node (fun first lastc =>
                 do b <- fo_cbma f strict lastc first [] false false false ;
                 if b then (do l' <- leaf lastc ; Ok (Some l')) else Ok None) ;
       match r with Some node' => Ok node' | None => Ok node end
@@ -326,7 +332,7 @@ Fixpoint fo_fa (fuel : nat) (strict : Z) (x : rnode) (ctx : list frame) : res rn
       do kids1 <- (fix go (ks : list rnode) : res (list rnode) :=
                      match ks with
                      | [] => Ok []
-                     | k :: ks' => do k' <- fo_fa f strict k (mkF (n_t x) bal ks' :: ctx) ;
+                     | k :: ks' => do k' <- fo_fa f strict k (mkF (n_t x) bal false ks' :: ctx) ;
                                    do r <- go ks' ; Ok (k' :: r)
                      end) (n_kids x) ;
       if negb (n_t x =? T_Concatenate) then Ok (set_kids x kids1)
@@ -334,7 +340,7 @@ Fixpoint fo_fa (fuel : nat) (strict : Z) (x : rnode) (ctx : list frame) : res rn
         do kids2 <- (fix pairs (ks : list rnode) : res (list rnode) :=
                        match ks with
                        | a :: ((b :: rest) as tl) =>
-                           do a' <- fo_pn f strict a b (mkF T_Concatenate false rest :: ctx) ;
+                           do a' <- fo_pn f strict a b (mkF T_Concatenate false false rest :: ctx) ;
                            do r <- pairs tl ; Ok (a' :: r)
                        | _ => Ok ks
                        end) kids1 ;
@@ -480,7 +486,7 @@ Fixpoint fo_epons_scan (req : rnode) (rest : list rnode) : res nat :=
 (* ---------------------------------------------------------------- eliminateEndingBacktracking (753-848) and the gated reduce *)
 (* [par_atomic]: node.Parent is an Atomic node (794).  [ptype]: the type of the parent the node is being
    added to (addChild / ReplaceChild set Parent before they reduce) *)
-Fixpoint fo_ee (fuel : nat) (g : Z) (lite : bool) (par_atomic : bool) (node : rnode) {struct fuel} : res rnode :=
+Fixpoint fo_ee (fuel : nat) (g : Z) (strict : Z) (lite : bool) (par_atomic : bool) (node : rnode) {struct fuel} : res rnode :=
   match fuel with
   | O => Fuel
   | S f =>
@@ -490,15 +496,15 @@ Fixpoint fo_ee (fuel : nat) (g : Z) (lite : bool) (par_atomic : bool) (node : rn
       let first_kid (pa : bool) (nd : rnode) : res rnode :=
         match n_kids nd with
         | [] => Crash 53
-        | k :: ks => do k' <- fo_ee f g lite pa k ; Ok (set_kids nd (k' :: ks))
+        | k :: ks => do k' <- fo_ee f g strict lite pa k ; Ok (set_kids nd (k' :: ks))
         end in
       (* 829-842 *)
       let as_loop (nd : rnode) : res rnode :=
         if n_n nd =? 1 then first_kid false nd
         else
-          do r <- fo_loop_last nd (fun first lastc =>
-                    do b <- fo_cbma f 0 lastc first [] false false false ;
-                    if b then (do l' <- fo_ee f g lite false lastc ; Ok (Some l')) else Ok None) ;
+          do r <- fo_loop_last strict nd (fun first lastc =>
+                    do b <- fo_cbma f strict lastc first [] false false false ;
+                    if b then (do l' <- fo_ee f g strict lite false lastc ; Ok (Some l')) else Ok None) ;
           match r with Some nd' => Ok nd' | None => Ok nd end in
       if fo_is_charloop t || fo_is_charlazy t then Ok (make_loop_atomic node)              (* 764 *)
       else if (t =? T_Atomic) || (t =? T_PosLook) || (t =? T_NegLook) then first_kid (t =? T_Atomic) node
@@ -511,26 +517,26 @@ Fixpoint fo_ee (fuel : nat) (g : Z) (lite : bool) (par_atomic : bool) (node : rn
               let et := n_t ec in
               if ((et =? T_Alternate) || (et =? T_BackRefCond) || (et =? T_ExprCond) || (et =? T_Loop) || (et =? T_Lazyloop))
                  && negb par_atomic then
-                do c1 <- fo_reduce f g lite 0 T_Atomic ec ;                                  (* atomic.addChild(existingChild) *)
-                do a1 <- fo_reduce f g lite 0 t (RN T_Atomic (n_o ec) 0 0 0 [] None [c1]) ;   (* node.ReplaceChild(last, atomic) *)
+                do c1 <- fo_reduce f g strict lite 0 T_Atomic ec ;                                  (* atomic.addChild(existingChild) *)
+                do a1 <- fo_reduce f g strict lite 0 t (RN T_Atomic (n_o ec) 0 0 0 [] None [c1]) ;   (* node.ReplaceChild(last, atomic) *)
                 (* node = existingChild: the walk goes on in the wrapped node *)
                 do a2 <- (if n_t a1 =? T_Atomic then
                             match n_kids a1 with
-                            | [c] => do c' <- fo_ee f g lite true c ; Ok (set_kids a1 [c'])
+                            | [c] => do c' <- fo_ee f g strict lite true c ; Ok (set_kids a1 [c'])
                             | _ => Ok a1
                             end
                           else Ok a1) ;
                 Ok (set_kids node (rev (a2 :: rpre)))
               else
-                do ec' <- fo_ee f g lite false ec ;
+                do ec' <- fo_ee f g strict lite false ec ;
                 Ok (set_kids node (rev (ec' :: rpre)))
           end
       else if (t =? T_Alternate) || (t =? T_BackRefCond) || (t =? T_ExprCond) then         (* 806-817 *)
         match n_kids node with
         | [] => Crash 55
         | k0 :: ks =>
-            do ks' <- fo_map_res (fo_ee f g lite false) ks ;
-            do k0' <- (if t =? T_ExprCond then Ok k0 else fo_ee f g lite false k0) ;
+            do ks' <- fo_map_res (fo_ee f g strict lite false) ks ;
+            do k0' <- (if t =? T_ExprCond then Ok k0 else fo_ee f g strict lite false k0) ;
             Ok (set_kids node (k0' :: ks'))
         end
       else if t =? T_Lazyloop then as_loop (set_mn node (n_m node) (n_m node))             (* 826-828 *)
@@ -539,7 +545,7 @@ Fixpoint fo_ee (fuel : nat) (g : Z) (lite : bool) (par_atomic : bool) (node : rn
   end
 
 (* reduce (486-513) with the gated branches taken *)
-with fo_reduce (fuel : nat) (g : Z) (lite : bool) (mode : Z) (ptype : Z) (x : rnode) {struct fuel} : res rnode :=
+with fo_reduce (fuel : nat) (g : Z) (strict : Z) (lite : bool) (mode : Z) (ptype : Z) (x : rnode) {struct fuel} : res rnode :=
   match fuel with
   | O => Fuel
   | S f =>
@@ -547,16 +553,16 @@ with fo_reduce (fuel : nat) (g : Z) (lite : bool) (mode : Z) (ptype : Z) (x : rn
     let o1 := if t =? T_Ref then o else clear_I o in
     let x1 := RN t o1 ch m n str st kids in
     let mand (y : rnode) : res rnode := if lite then Ok y else reduce cat_in y in
-    let red_alt_kid (y : rnode) : res rnode := fo_reduce f g lite 0 T_Alternate y in
+    let red_alt_kid (y : rnode) : res rnode := fo_reduce f g strict lite 0 T_Alternate y in
     (* the consolidated node of 1161-1193 / 1255-1275: Concatenation(prefix, Alternation(branches)) *)
     let consolidate (opts : Z) (prefix : rnode) (brs : list rnode) : res rnode :=
       let na := RN T_Alternate opts 0 0 0 [] None brs in
       do na2 <- (if ptype =? T_Atomic
-                 then do c <- fo_reduce f g lite 0 T_Atomic na ; Ok (RN T_Atomic opts 0 0 0 [] None [c])
+                 then do c <- fo_reduce f g strict lite 0 T_Atomic na ; Ok (RN T_Atomic opts 0 0 0 [] None [c])
                  else Ok na) ;
-      do p' <- fo_reduce f g lite 0 T_Concatenate prefix ;
-      do a' <- fo_reduce f g lite 0 T_Concatenate na2 ;
-      fo_reduce f g lite 0 T_Alternate (RN T_Concatenate opts 0 0 0 [] None [p'; a']) in
+      do p' <- fo_reduce f g strict lite 0 T_Concatenate prefix ;
+      do a' <- fo_reduce f g strict lite 0 T_Concatenate na2 ;
+      fo_reduce f g strict lite 0 T_Alternate (RN T_Concatenate opts 0 0 0 [] None [p'; a']) in
     if t =? T_Alternate then
       if lite && fo_gate g 16 then Ok x1
       else
@@ -653,7 +659,7 @@ with fo_reduce (fuel : nat) (g : Z) (lite : bool) (mode : Z) (ptype : Z) (x : rn
            | child :: crest =>
                let ct := n_t child in
                let dflt (c : rnode) : res rnode :=
-                 do c' <- fo_ee f g lite true c ; Ok (set_kids atomic (c' :: crest)) in
+                 do c' <- fo_ee f g strict lite true c ; Ok (set_kids atomic (c' :: crest)) in
                if ct =? T_Atomic then strip fu' child
                else if (ct =? T_Empty) || (ct =? T_Nothing) then Ok child
                else if is_atomicloop_family ct then Ok child
@@ -669,7 +675,7 @@ with fo_reduce (fuel : nat) (g : Z) (lite : bool) (mode : Z) (ptype : Z) (x : rn
                          do keyed <- fo_map_res fo_key (fo_trim (n_kids child)) ;
                          let (brs, reordered) := fo_reorder (S (length keyed)) keyed in
                          let child1 := set_kids child brs in
-                         do child2 <- (if reordered then fo_reduce f g lite 0 T_Atomic child1 else Ok child1) ;
+                         do child2 <- (if reordered then fo_reduce f g strict lite 0 T_Atomic child1 else Ok child1) ;
                          dflt child2
                    end
                else dflt child
@@ -677,7 +683,7 @@ with fo_reduce (fuel : nat) (g : Z) (lite : bool) (mode : Z) (ptype : Z) (x : rn
          end) (S f) x1
     else if (t =? T_PosLook) || (t =? T_NegLook) then
       (* reduceLookaround (516-540) *)
-      do x2 <- fo_ee f g lite false x1 ;
+      do x2 <- fo_ee f g strict lite false x1 ;
       match n_kids x2 with
       | [] => Crash 21
       | k :: _ => if n_t k =? T_Empty
@@ -696,14 +702,14 @@ with fo_reduce (fuel : nat) (g : Z) (lite : bool) (mode : Z) (ptype : Z) (x : rn
                         if (n_t cond =? T_PosLook) && negb (useRTL (n_o cond)) then
                           match n_kids cond with
                           | [] => Crash 29
-                          | c :: _ => do c' <- fo_reduce f g lite 0 T_ExprCond c ;
+                          | c :: _ => do c' <- fo_reduce f g strict lite 0 T_ExprCond c ;
                                       Ok (RN t o1 ch m n str st (c' :: tl kids2))
                           end
                         else Ok (RN t o1 ch m n str st kids2)
                     end) ;
         match n_kids x2 with
         | [] => Crash 28
-        | c :: r => do c' <- fo_ee f g lite false c ; Ok (set_kids x2 (c' :: r))
+        | c :: r => do c' <- fo_ee f g strict lite false c ; Ok (set_kids x2 (c' :: r))
         end
       else
         (* the visit of [fo_rr]: the condition of the gate-31 tree has been through 570-573 already.  Mode 2: it
@@ -714,14 +720,14 @@ with fo_reduce (fuel : nat) (g : Z) (lite : bool) (mode : Z) (ptype : Z) (x : rn
         | [] => Crash 28
         | c :: r =>
             if mode =? 2 then
-              do c1 <- fo_ee f g lite false c ;
+              do c1 <- fo_ee f g strict lite false c ;
               if n_t c1 =? T_Empty then Ok (RN t o1 ch m n str st (mk_node T_Empty o1 :: r))      (* the PosLook node itself, 530-536 *)
               else
-                do c2 <- fo_reduce f g lite 0 T_ExprCond c1 ;
-                do c3 <- fo_ee f g lite false c2 ;
+                do c2 <- fo_reduce f g strict lite 0 T_ExprCond c1 ;
+                do c3 <- fo_ee f g strict lite false c2 ;
                 Ok (RN t o1 ch m n str st (c3 :: r))
             else
-              do c' <- fo_ee f g lite false c ; Ok (RN t o1 ch m n str st (c' :: r))
+              do c' <- fo_ee f g strict lite false c ; Ok (RN t o1 ch m n str st (c' :: r))
         end
     else mand x1
   end.
@@ -734,13 +740,13 @@ with fo_reduce (fuel : nat) (g : Z) (lite : bool) (mode : Z) (ptype : Z) (x : rn
    reversed after its reduction, nested groups are flattened after the adjacent loops were merged). *)
 Definition fo_has_gated_branch (t : Z) : bool :=
   (t =? T_Alternate) || (t =? T_Atomic) || (t =? T_PosLook) || (t =? T_NegLook) || (t =? T_ExprCond).
-Fixpoint fo_rr (fuel : nat) (g : Z) (lite : bool) (mode : Z) (ptype : Z) (x : rnode) : res rnode :=
+Fixpoint fo_rr (fuel : nat) (g : Z) (strict : Z) (lite : bool) (mode : Z) (ptype : Z) (x : rnode) : res rnode :=
   match fuel with
   | O => Fuel
   | S f =>
-      do kids' <- fo_map_res (fo_rr f g lite mode (n_t x)) (n_kids x) ;
+      do kids' <- fo_map_res (fo_rr f g strict lite mode (n_t x)) (n_kids x) ;
       if fo_heads_eqb kids' (n_kids x) && negb (fo_has_gated_branch (n_t x)) then Ok (set_kids x kids')
-      else fo_reduce (S (S f)) g lite mode ptype (set_kids x kids')
+      else fo_reduce (S (S f)) g strict lite mode ptype (set_kids x kids')
   end.
 
 (* ---------------------------------------------------------------- the bump-along marker (338-368) *)
@@ -776,7 +782,7 @@ Definition fo_final_passes (fuel : nat) (g strict : Z) (lite : bool) (r0 : rnode
   if useRTL (n_o r0) then Ok r0
   else
     do r1 <- (if fo_gate g 1 then Ok r0 else fo_fa fuel strict r0 []) ;
-    do r2 <- fo_ee fuel g lite false r1 ;
+    do r2 <- fo_ee fuel g strict lite false r1 ;
     match n_kids r2 with
     | [] => Crash 56
     | k :: ks => do r <- fo_bump fuel g k true false ; Ok (set_kids r2 (fst r :: ks))
@@ -785,7 +791,7 @@ Definition fo_final_passes (fuel : nat) (g strict : Z) (lite : bool) (r0 : rnode
 (* the tree of the parse under mask [g] from the tree of the parse under mask 31 *)
 Definition fo_final_optimize (fuel : nat) (g strict : Z) (lite cond_look : bool) (root : rnode) : res rnode :=
   do r0 <- (if fo_gate g 2 && fo_gate g 8 && fo_gate g 16 then Ok root
-            else do kids' <- fo_map_res (fo_rr fuel g lite (if cond_look then 2 else 1) (n_t root)) (n_kids root) ;
+            else do kids' <- fo_map_res (fo_rr fuel g strict lite (if cond_look then 2 else 1) (n_t root)) (n_kids root) ;
                  Ok (set_kids root kids')) ;
   fo_final_passes fuel g strict lite r0.
 
